@@ -317,7 +317,10 @@ pub fn generate(sink: &mut Sink, rng: &mut Rng, n: u64, op: &str) {
     let per_fn = (n / fns.len() as u64).max(2);
     for f in &fns {
         let name = f.identifier();
-        if EXCLUDED.contains(&name) {
+        // the no-panic sweep (C04) does not care about nondeterminism: only the functions that reach for the
+        // network stay out of it
+        let skip = if op == "o.c04.fn" { ["http_request", "dns_lookup", "reverse_dns"].contains(&name) } else { EXCLUDED.contains(&name) };
+        if skip {
             sink.count("sweep:excluded_functions");
             continue;
         }
